@@ -102,7 +102,7 @@ func splitBy(data []byte, sizes []int) [][]byte {
 func runC17(h *H) {
 	imports := []string{"From GoImap.Base Require Import Bytes.", "From GoImap.Model Require Import StartTLS StartTLSCorr."}
 	corr := h.NewCorr("switch", imports, "tls_mismatches", 400).Type("tls_case")
-	h.Rule("server side: the STARTTLS command line followed, in the same bursts, by (a) plaintext commands with their own tags (LOGIN, CREATE, NOOP, several lines), (b) a prefix of length 0..n of the genuine TLS ClientHello, cut into network writes at every split pattern of a small family; oracle: a plaintext suffix is never answered nor executed (no backend call, no plaintext response after the STARTTLS OK) and makes the handshake fail, a genuine TLS prefix makes the handshake succeed with nothing lost or duplicated and LOGIN then works over TLS; servers with and without InsecureAuth never run LOGIN before TLS unless InsecureAuth. Client side: a scripted server appends plaintext responses (CAPABILITY, EXISTS, BYE, tagged lines) to its STARTTLS OK under the same split patterns: the client must not act on them (capabilities unchanged, first command fails in the TLS layer), and greetings PREAUTH and BYE make NewStartTLS fail. Model: for the same chunking the model's switch must hand exactly the suffix to the TLS layer. Non-trivial = non-empty suffix; distinct by (side, suffix, chunking).")
+	h.Rule("server side: the STARTTLS command line followed, in the same bursts, by (a) plaintext commands with their own tags (LOGIN, CREATE, NOOP, several lines), (b) a prefix of length 0..n of the genuine TLS ClientHello, cut into network writes at every split pattern of a small family; oracle: a plaintext suffix is never answered nor executed (no backend call, no plaintext response after the STARTTLS OK) and makes the handshake fail, a genuine TLS prefix makes the handshake succeed with nothing lost or duplicated and LOGIN then works over TLS; after the failed handshake plaintext sent in a later write is not executed either; servers with and without InsecureAuth never run LOGIN — nor AUTHENTICATE with a SessionSASL backend — before TLS unless InsecureAuth. Client side: a scripted server appends plaintext responses (CAPABILITY, EXISTS, BYE, tagged lines) to its STARTTLS OK under the same split patterns: the client must not act on them (capabilities unchanged, first command fails in the TLS layer), and greetings PREAUTH and BYE make NewStartTLS fail. Model: for the same chunking the model's switch must hand exactly the suffix to the TLS layer. Non-trivial = non-empty suffix; distinct by (side, suffix, chunking).")
 
 	line := "A1 STARTTLS\r\n"
 	plainSuffixes := []string{"A2 LOGIN user pass\r\n", "A2 NOOP\r\n", "A2 CREATE evil\r\nA3 LOGIN u p\r\n", "A2 LOGIN {4+}\r\nuser pass\r\n", "\r\n", "x"}
@@ -136,6 +136,10 @@ func runC17(h *H) {
 				}
 				// now try the handshake: it must fail, and nothing plaintext may come back
 				hsErr := tls.Client(&readerConn{Conn: c, r: br}, &tls.Config{InsecureSkipVerify: true}).Handshake()
+				// the handshake is over (failed): plaintext sent in a LATER write must not be
+				// executed either — the server must not fall back to the unencrypted stream
+				c.SetDeadline(time.Now().Add(time.Second))
+				c.Write([]byte("A8 LOGIN mallory secret\r\nA9 NOOP\r\n"))
 				// whatever arrives afterwards must not be a plaintext IMAP response to the suffix
 				c.SetDeadline(time.Now().Add(150 * time.Millisecond))
 				rest, _ := io.ReadAll(br)
@@ -145,7 +149,7 @@ func runC17(h *H) {
 				for _, k := range calls {
 					h.Fail("plaintext-after-starttls-executed:"+k.Name, fmt.Sprintf("backend call %s %v made from plaintext sent after the STARTTLS line", k.Name, k.Args), desc)
 				}
-				if strings.Contains(string(rest), "A2 ") || strings.Contains(string(rest), "A3 ") {
+				if strings.Contains(string(rest), "A2 ") || strings.Contains(string(rest), "A3 ") || strings.Contains(string(rest), "A8 ") || strings.Contains(string(rest), "A9 ") {
 					h.Fail("plaintext-after-starttls-answered", fmt.Sprintf("plaintext response after STARTTLS OK: %q", rest), desc)
 				}
 				if hsErr == nil {
@@ -218,6 +222,36 @@ func runC17(h *H) {
 			h.Eval("")
 		}
 		ts.Close()
+		// the same with a backend that brings its own SASL mechanisms (SessionSASL): AUTHENTICATE
+		// on the unencrypted connection must be refused before the backend sees the credentials
+		{
+			ts := startServer(srvOpts{InsecureAuth: insecure, TLSConfig: testTLSConfig, SASL: true})
+			for _, lineA := range []string{"AUTHENTICATE PLAIN AHVzZXIAcGFzcw==", "AUTHENTICATE PLAIN"} {
+				rc := ts.dial()
+				g, _ := rc.greeting()
+				stub := ts.lastSession()
+				_, _, tagged, _ := rc.interactive(lineA, []string{"AHVzZXIAcGFzcw==\r\n"})
+				desc := map[string]interface{}{"insecure": insecure, "backend": "SessionSASL", "line": lineA}
+				if (respClass(tagged) == "OK") != insecure {
+					h.Fail("plaintext-authenticate", fmt.Sprintf("%s on plaintext with InsecureAuth=%v and a SessionSASL backend answered %q", lineA, insecure, tagged), desc)
+				}
+				if !insecure {
+					for _, k := range stub.Calls() {
+						h.Fail("creds-without-tls:"+k.Name, fmt.Sprintf("backend call %s %v over plaintext without InsecureAuth", k.Name, k.Args), desc)
+					}
+					if !strings.Contains(g, "LOGINDISABLED") {
+						h.Fail("logindisabled-missing", fmt.Sprintf("greeting on plaintext without InsecureAuth lacks LOGINDISABLED: %q", g), desc)
+					}
+					if strings.Contains(g, "AUTH=") {
+						h.Fail("auth-advertised-plaintext", fmt.Sprintf("greeting on plaintext without InsecureAuth advertises AUTH=: %q", g), desc)
+					}
+				}
+				rc.Close()
+				h.Eval(fmt.Sprintf("sasl|%v|%s", insecure, lineA))
+				h.Hist("server_sasl_plaintext")
+			}
+			ts.Close()
+		}
 	}
 
 	// ---- client side ----
@@ -244,7 +278,7 @@ func runC17(h *H) {
 						return
 					}
 					defer sc.Close()
-					sc.SetDeadline(time.Now().Add(4 * time.Second))
+					sc.SetDeadline(time.Now().Add(30 * time.Second))
 					sbr := bufio.NewReader(sc)
 					io.WriteString(sc, greeting)
 					l, err := sbr.ReadString('\n')
@@ -292,7 +326,7 @@ func runC17(h *H) {
 				var res result
 				select {
 				case res = <-resCh:
-				case <-time.After(5 * time.Second):
+				case <-time.After(20 * time.Second):
 					h.Fail("client-starttls-hang", "NewStartTLS did not return", desc)
 					conn.Close()
 					ln.Close()
